@@ -2,9 +2,11 @@
    [serve_conn] is the model of handle_connection over the inbound segments (read loop, framing,
    body readers over the model of BufReader, handlers, drain on drop, keep-alive decision);
    [spec_conn] interprets the concatenated bytes sequentially, one request after the other, with the
-   body located by the strict recognisers.  Two recorded findings delimit the theorem:
+   body located by the strict recognisers.  One recorded finding delimits the theorem:
      known_F20c  (chunked body whose end shares a segment with the next request: read-ahead loses bytes)
-     known_F21   (malformed / truncated body that is answered without the error reaching the server) *)
+   Finding F21 (a malformed / truncated body that is answered without the error reaching the server, the
+   connection being kept) is repaired: the failed discard of the body closes the connection, and the theorem no
+   longer excludes those histories. *)
 From KV Require Import Lib.Bytes Model.Headers Model.Parser Model.Body Model.Server
   Spec.HeaderStore Spec.HttpGrammar Spec.ChunkedSpec Spec.Framing Spec.ConnSpec Spec.ConnKnown Proofs.ServerConn.
 
@@ -29,14 +31,14 @@ Print Assumptions C07_one_request.
 (* the whole connection: every lock-step history gives exactly the sequential transcript *)
 Theorem C07_transcript : forall a N segs,
   0 < N ->                                         (* a head limit of zero bytes answers 431 before reading anything *)
-  lockstep a N segs = true -> known_F21 a N segs = false ->
+  lockstep a N segs = true ->
   snd (spec_conn a N (concat segs)) <> EUnspec ->
   c_resps (serve_conn a N segs) = fst (spec_conn a N (concat segs)) /\
   (c_waiting (serve_conn a N segs) = true <-> snd (spec_conn a N (concat segs)) = EWaiting).
 Proof. exact conn_transcript_pos. Qed.
 Print Assumptions C07_transcript.
 
-(* ---- the two recorded findings, as witnesses on the faithful model (see known_findings.json) ---- *)
+(* ---- the recorded finding F20c and the repaired F21, as witnesses on the faithful model (see known_findings.json) ---- *)
 Definition hold_app : app :=
   {| behaviour_of := fun _ => BHold; hook_of := fun _ => HProceed; describe := fun _ b => b |}.
 Definition none_app : app :=
@@ -62,14 +64,31 @@ Example C07_fixed_straddle_ok :
   length (c_resps (serve_conn hold_app 4096 fixed_segs)) = 2.
 Proof. vm_compute. split; reflexivity. Qed.
 
-(* F21: a malformed body that the handler ignores: the spec closes, the model (like the code) keeps going *)
+(* F21 (repaired): a malformed body that the handler ignores.  The spec closes after the one response; so does the
+   model (like the repaired code): the discard of the body fails, the connection is closed, the second request is
+   neither parsed nor answered.  The history satisfies the hypotheses of C07_transcript. *)
 Definition f21_segs : list bytes :=
   [ bs "POST /x HTTP/1.1" ++ [x0d; x0a] ++ bs "Transfer-Encoding: chunked" ++ crlf2 ++ bs "zz" ++ [x0d; x0a] ++ bs "hello" ++ [x0d; x0a] ++ bs "0" ++ crlf2;
     get_req ].
-Example C07_refuted_F21 :
-  known_F21 none_app 4096 f21_segs = true /\
-  length (fst (spec_conn none_app 4096 (concat f21_segs))) = 1 /\ snd (spec_conn none_app 4096 (concat f21_segs)) = EClosed /\
-  length (c_resps (serve_conn none_app 4096 f21_segs)) = 2.
+Example C07_F21_repaired :
+  lockstep none_app 4096 f21_segs = true /\
+  c_resps (serve_conn none_app 4096 f21_segs) = fst (spec_conn none_app 4096 (concat f21_segs)) /\
+  snd (spec_conn none_app 4096 (concat f21_segs)) = EClosed /\
+  length (c_resps (serve_conn none_app 4096 f21_segs)) = 1 /\
+  c_requests (serve_conn none_app 4096 f21_segs) = 1 /\ c_ok (serve_conn none_app 4096 f21_segs) = true /\
+  c_waiting (serve_conn none_app 4096 f21_segs) = false.
+Proof. vm_compute. repeat split. Qed.
+(* the same for a fixed-length body that is cut short, the pre-routing hook answering in place of the handler *)
+Definition hook_app : app :=
+  {| behaviour_of := fun _ => BNone 200; hook_of := fun _ => HAnswer; describe := fun _ b => b |}.
+Definition f21_short_segs : list bytes :=
+  [ bs "POST /x HTTP/1.1" ++ [x0d; x0a] ++ bs "Content-Length: 10" ++ crlf2 ++ bs "hello" ].
+Example C07_F21_repaired_short :
+  lockstep hook_app 4096 f21_short_segs = true /\
+  c_resps (serve_conn hook_app 4096 f21_short_segs) = fst (spec_conn hook_app 4096 (concat f21_short_segs)) /\
+  snd (spec_conn hook_app 4096 (concat f21_short_segs)) = EClosed /\
+  length (c_resps (serve_conn hook_app 4096 f21_short_segs)) = 1 /\
+  c_waiting (serve_conn hook_app 4096 f21_short_segs) = false.
 Proof. vm_compute. repeat split. Qed.
 
 (* non-vacuity of the theorem's hypotheses: a lock-step history of three requests *)
@@ -78,6 +97,6 @@ Definition ok_segs : list bytes :=
     bs "POST /b HTTP/1.1" ++ [x0d; x0a] ++ bs "Transfer-Encoding: chunked" ++ crlf2; bs "5" ++ [x0d; x0a] ++ bs "hel"; bs "lo" ++ [x0d; x0a] ++ bs "0" ++ crlf2;
     get_req ].
 Example C07_ex_lockstep :
-  lockstep none_app 4096 ok_segs = true /\ known_F21 none_app 4096 ok_segs = false /\
+  lockstep none_app 4096 ok_segs = true /\
   length (c_resps (serve_conn none_app 4096 ok_segs)) = 3.
 Proof. vm_compute. repeat split. Qed.
